@@ -255,6 +255,7 @@ pub fn tracker_stats(world: &World) -> Option<TrackerStats> {
 
 static CURRENT_PEER: AtomicU32 = AtomicU32::new(0);
 static TAP: Mutex<Vec<(u32, bool, VMessage)>> = Mutex::new(Vec::new());
+static TAP_SENDERS: Mutex<Vec<u64>> = Mutex::new(Vec::new());
 
 /// The harness names the App it is about to update; received messages are attributed to it.
 pub fn set_current_peer(peer: u32) {
@@ -264,6 +265,19 @@ pub fn set_current_peer(peer: u32) {
 /// Drain the receive tap: (peer, received_as_server, message) in processing order.
 pub fn drain_tap() -> Vec<(u32, bool, VMessage)> {
     std::mem::take(&mut *TAP.lock().unwrap_or_else(|e| e.into_inner()))
+}
+
+/// Drain the renet client ids of the messages received as server, in processing order
+/// (one entry per `received_as_server == true` entry of `drain_tap`).
+pub fn drain_tap_senders() -> Vec<u64> {
+    std::mem::take(&mut *TAP_SENDERS.lock().unwrap_or_else(|e| e.into_inner()))
+}
+
+pub(crate) fn tap_sender(client_id: u64) {
+    TAP_SENDERS
+        .lock()
+        .unwrap_or_else(|e| e.into_inner())
+        .push(client_id);
 }
 
 pub(crate) fn tap(as_server: bool, message: &Message) {
